@@ -46,6 +46,33 @@ Theorem C16_create_never_over_file : forall f p ow c, fs_get p f = Some (FFile c
 Proof. exact create_never_over_file. Qed.
 Print Assumptions C16_create_never_over_file.
 
+(* the same for delete_raggedarray: a foreign entry anywhere in the directory, in values/ or in
+   indices/ survives unmodified and makes the call raise OSError; wrong kind / read-only refuse *)
+Theorem C16_ragged_delete_keeps_foreign : forall f base topfiles afiles q n opens writable,
+  fs_get q f = Some n -> path_eqb base q = false ->
+  path_eqb (base ++ ["values"%string]) q = false -> path_eqb (base ++ ["indices"%string]) q = false ->
+  (forall x, In x topfiles -> path_eqb (base ++ [x]) q = false) ->
+  (forall x, In x afiles -> path_eqb ((base ++ ["values"%string]) ++ [x]) q = false) ->
+  (forall x, In x afiles -> path_eqb ((base ++ ["indices"%string]) ++ [x]) q = false) ->
+  fs_get q (snd (delete_ragged f base topfiles afiles opens writable)) = Some n.
+Proof. intros. apply ragged_delete_keeps_foreign; assumption. Qed.
+Print Assumptions C16_ragged_delete_keeps_foreign.
+Theorem C16_ragged_delete_foreign_raises : forall f base topfiles afiles q n,
+  fs_get q f = Some n -> path_eqb base q = false ->
+  path_eqb (base ++ ["values"%string]) q = false -> path_eqb (base ++ ["indices"%string]) q = false ->
+  (forall x, In x topfiles -> path_eqb (base ++ [x]) q = false) ->
+  (forall x, In x afiles -> path_eqb ((base ++ ["values"%string]) ++ [x]) q = false) ->
+  (forall x, In x afiles -> path_eqb ((base ++ ["indices"%string]) ++ [x]) q = false) ->
+  is_prefix base q = true ->
+  fst (delete_ragged f base topfiles afiles true true) = Err OSError.
+Proof. intros. eapply ragged_delete_foreign_raises; eassumption. Qed.
+Print Assumptions C16_ragged_delete_foreign_raises.
+Theorem C16_ragged_delete_refusals : forall f base tf af writable,
+  delete_ragged f base tf af false writable = (Err TypeError, f) /\
+  delete_ragged f base tf af true false = (Err OSError, f).
+Proof. intros. split; reflexivity. Qed.
+Print Assumptions C16_ragged_delete_refusals.
+
 Example C16_example :
   let base := ["B"] in
   let f := [(base, FDir); (base ++ ["README.txt"], FFile [1]); (base ++ ["arrayvalues.bin"], FFile [2]);
